@@ -107,10 +107,10 @@ def cc_requires(shape):
         r += ["ntok() >= 2 and ntok() % 2 == 0",
               "forall(lambda t: implies(0 <= t < ntok() and t % 2 == 0, isori(t)))",
               "forall(lambda t: implies(0 <= t < ntok() and t % 2 == 1, not isori(t) and tok(t) != '' and str_contains(tok(t), ':') and str_contains(tok(t), '-') and "
-              "len(split_colon(rstrip(tok(t)))) == 2 and len(split_dash(rstrip(split_colon(rstrip(tok(t)))[1]))) == 2))",
+              "len(rsplit_colon_1(rstrip(tok(t)))) == 2 and len(split_dash(rstrip(rsplit_colon_1(rstrip(tok(t)))[1]))) == 2))",
               "forall(lambda t: implies(0 <= t < ntok(), BODY[t] == (t % 2 == 1)))",
-              "forall(lambda t: implies(0 <= t < ntok() and t % 2 == 1, CT[t] == split_colon(rstrip(tok(t)))[0] and "
-              "QS[t] == int(split_dash(rstrip(split_colon(rstrip(tok(t)))[1]))[0]) and QE[t] == int(split_dash(rstrip(split_colon(rstrip(tok(t)))[1]))[1])))"]
+              "forall(lambda t: implies(0 <= t < ntok() and t % 2 == 1, CT[t] == rsplit_colon_1(rstrip(tok(t)))[0] and "
+              "QS[t] == int(split_dash(rstrip(rsplit_colon_1(rstrip(tok(t)))[1]))[0]) and QE[t] == int(split_dash(rstrip(rsplit_colon_1(rstrip(tok(t)))[1]))[1])))"]
     r += [
         "len(line) >= 9",
         # definitions of the ghost names for segment starts / ends
@@ -138,7 +138,7 @@ def register_convert_coord(reg):
             file=INDEX, func="convert_coord", variant="#" + shape, params=dict(line=LINE, ref=DictT(STR, ListT(GNode))), returns=LINE, pure=True,
             ghost=dict(lo=IMAP, hi=IMAP, OUT=IMAP, CT=MapT(INT, STR), QS=IMAP, QE=IMAP, BODY=MapT(INT, BOOL), SO=MapT(I2, INT), EN=MapT(I2, INT), B=INT, UC0=LINE),
             types=dict(STR=STR, INT=INT),
-            ufuns=dict(tokens_of=([STR], LINE), split_colon=([STR], LINE), split_dash=([STR], LINE), rstrip=([STR], STR), str_contains=([STR, STR], BOOL)),
+            ufuns=dict(tokens_of=([STR], LINE), rsplit_colon_1=([STR], LINE), split_dash=([STR], LINE), rstrip=([STR], STR), str_contains=([STR, STR], BOOL)),
             spec_funcs=cc_macros(shape), call_ghost={"search_intervals": {"w": "lo[it1 - 1]"}},
             locals=dict(unstable_coord=LINE),
             requires=cc_requires(shape),
